@@ -89,6 +89,25 @@ Theorem C08_any_completion_order : forall T mts get_setting run sm pre sched n k
 Proof. exact par_safety. Qed.
 Print Assumptions C08_any_completion_order.
 
+(* a search on an optimizer object whose self._futures still holds the futures an ABORTED search
+   left behind (an exception escaped, _maybe_cancel_futures was never reached): because
+   _gen_results_parallel starts with `self._futures = []` (par_search true), it reports only its
+   own submissions (numbers k .. k'-1), each once, at most n of them, for every leftover list *)
+Theorem C08_search_after_abort_reports_only_its_own :
+  forall T mts get_setting run sm pre sched leftover n k st0 status st trace k',
+  par_search T mts get_setting run sm pre sched true leftover n k st0 = (status, st, trace, k') ->
+  k' - k <= n /\ length trace <= k' - k /\
+  replay T mts st0 trace = Some st /\
+  NoDup (ids T trace) /\ (forall id, In id (ids T trace) -> k <= id < k') /\
+  Forall (paired T run) trace /\
+  Forall (fun e => submitted_setting get_setting (e_id e) (e_setting e)) trace.
+Proof. exact par_search_own_trials. Qed.
+Print Assumptions C08_search_after_abort_reports_only_its_own.
+
+(* the reset is needed: without it (par_search false) the same statement is false -- see
+   Example ex_no_reset_refuted below: 2 trials requested, 4 recorded, two of them submitted by
+   the aborted search *)
+
 (* liveness: a scheduler that always marks some in-flight future done never blocks the search,
    and a search that runs to its end has reported every one of its n submissions exactly once *)
 Theorem C08_every_submission_reported_once : forall T mts get_setting run sm pre sched n k step st0 status st trace k',
@@ -272,6 +291,25 @@ Proof.
   - apply quad_eta.
   - vm_compute. reflexivity.
 Qed.
+
+(* an aborted search followed by another one.  Search 1: pre_dispatch 3, submission 2 raises
+   (on_trial_error='raise') when its result is taken: submissions 0 and 1 stay in self._futures *)
+Definition ex_run2 (id : nat) (s : setting) : option (trial nat) :=
+  match id with 2 => None | _ => Some (ex_tr (Fin (Z.of_nat (10 + id))) 50 id) end.
+Definition ex_abort_pending := par_search_pending nat None ex_gs ex_run2 NoStop 3 ex_sched true [] 5 0 init_state.
+Definition ex_abort := par_search nat None ex_gs ex_run2 NoStop 3 ex_sched true [] 5 0 init_state.
+Example ex_abort_value :
+  (fst (fst (fst ex_abort)), map (@e_id nat) (snd (fst ex_abort)), map fst ex_abort_pending) = (Crashed, [], [0; 1]).
+Proof. vm_compute. reflexivity. Qed.
+(* search 2 on the same object asks for 2 trials (submissions 3, 4) *)
+Definition ex_next (reset : bool) :=
+  par_search nat None ex_gs ex_run2 NoStop 3 ex_sched reset ex_abort_pending 2 3 (snd (fst (fst ex_abort))).
+Example ex_reset_ok : map (@e_id nat) (snd (fst (ex_next true))) = [4; 3].
+Proof. vm_compute. reflexivity. Qed.
+Example ex_no_reset_refuted :
+  let tr := snd (fst (ex_next false)) in
+  2 < length tr /\ In 0 (map (@e_id nat) tr) /\ In 1 (map (@e_id nat) tr).
+Proof. vm_compute. repeat split; auto. Qed.
 
 (* the pipeline: anneal + slice on a tree whose flops go 100 -> 80 -> 160 (sliced), and a
    failing reconfiguration turning the trial into the failed dict *)
